@@ -69,12 +69,13 @@ def safe_rows(V, qbits, kind):
     return out
 
 
-def make_lm(V, qbits, opts):
-    """opts: {"zeros": bool, "uniform": bool, "hard_force": bool}. Returns the LM module."""
+def _hash_lm(V, qbits, opts, salt=0):
+    """opts: {"zeros": bool, "uniform": bool, "hard_force": bool, "double": bool}. Returns the LM module.
+    `salt` separates the hash streams of the two components of a fusion model."""
     import torch
-    from pydrobert.torch.modules import ExtractableSequentialLanguageModel
+    from pydrobert.torch.modules import MixableSequentialLanguageModel
 
-    class HashLM(ExtractableSequentialLanguageModel):
+    class HashLM(MixableSequentialLanguageModel):
         """Logits are a deterministic hash of a threaded integer state `h` (updated with the
         last token of the history at every call and carried through `extract_by_src`) and of
         the batch element (`ctx`, static input). `ctx[:, 2]` = depth from which eos is
@@ -91,9 +92,14 @@ def make_lm(V, qbits, opts):
         def update_input(self, prev, hist):
             if "h" in prev:
                 return prev
-            ctx = prev["ctx"]
             out = dict(prev)
-            out["h"] = (ctx[:, 0] * 16807 + 11) % P
+            if "ctx" not in prev:
+                # no initial state at all (`initial_state=None`): every batch element is the same model
+                ctx = torch.zeros((hist.size(1), 4), dtype=torch.long)
+                ctx[:, 2] = -1
+                out["ctx"] = ctx
+            ctx = out["ctx"]
+            out["h"] = (ctx[:, 0] * 16807 + 11 + 7919 * salt) % P
             return out
 
         def calc_idx_log_probs(self, hist, prev, idx):
@@ -105,7 +111,7 @@ def make_lm(V, qbits, opts):
                 tok = hist[i - 1]          # IndexError if idx is beyond the history (contract)
                 h = (h * 48271 + (tok + 1) * 69621 + 12345) % P
             self.calls.append((i, hist.size(0), hist.size(1)))
-            sel = (h * 40692 + ctx[:, 1] * 40014 + 7) % P
+            sel = (h * 40692 + ctx[:, 1] * 40014 + 7 + 104729 * salt) % P
             if opts.get("uniform"):
                 logits = torch.zeros((hist.size(1), V))
             else:
@@ -127,12 +133,103 @@ def make_lm(V, qbits, opts):
                             fr_ = self.frows[ev]
                             forced[m] = fr_.index_select(0, sel[m] % fr_.size(0))
                 logits = torch.where(force.unsqueeze(1), forced, logits)
+            if opts.get("double"):
+                logits = logits.double()
+            if opts.get("view"):
+                # hand the logits over as a non-contiguous view (left part of a wider tensor)
+                logits = torch.cat([logits, torch.full_like(logits[:, :1], 7.0)], 1)[:, :-1]
             return logits, {"h": h, "ctx": ctx}
 
         def extract_by_src(self, prev, src):
             return {"h": prev["h"].index_select(0, src), "ctx": prev["ctx"].index_select(0, src)}
 
+        def mix_by_mask(self, prev_true, prev_false, mask):
+            return {k: torch.where(mask.unsqueeze(1) if prev_true[k].dim() == 2 else mask,
+                                   prev_true[k], prev_false[k]) for k in prev_true}
+
     return HashLM()
+
+
+def lookup_dicts(V, order, sos, seed):
+    """A random sparse back-off n-gram table (every in-vocabulary unigram present and finite, so every
+    row the model produces has finite entries). Values are multiples of 1/8."""
+    import random
+    rng = random.Random(seed)
+    shift = 0 if 0 <= sos < V else 1
+    toks = list(range(V))
+    ctx_toks = toks + ([sos] if shift else [])
+
+    def lp():
+        return -rng.randrange(0, 49) / 8.0
+
+    def lb():
+        return -rng.randrange(0, 9) / 8.0
+    dicts = []
+    for n in range(1, order + 1):
+        d = {}
+        if n == 1:
+            for t in ctx_toks:
+                d[t] = lp() if order == 1 else (lp(), lb())
+        else:
+            for key in itertools.product(*([ctx_toks] * (n - 1) + [toks])):
+                # sos only as a (repeated) prefix of the context
+                body = list(key[:-1])
+                while body and body[0] == sos and shift:
+                    body.pop(0)
+                if shift and sos in body:
+                    continue
+                if rng.random() < 0.55:
+                    d[key] = lp() if n == order else (lp(), lb())
+            if not d:        # the library refuses an empty table of the highest order
+                key = tuple([toks[0]] * n)
+                d[key] = lp() if n == order else (lp(), lb())
+        dicts.append(d)
+    return dicts
+
+
+def make_lm(V, qbits, opts):
+    """opts["kind"]: "hash" (default) | "fusion" / "mixfusion" (the library's Extractable- /
+    MixableShallowFusionLanguageModel over two hash models, each with its own threaded state) |
+    "lookup" (the library's LookupLanguageModel over a random back-off table). Every returned module
+    has `.calls` = [(idx, hist.size(0), hist.size(1))] for each calc_idx_log_probs call."""
+    kind = opts.get("kind", "hash")
+    if kind == "hash":
+        return _hash_lm(V, qbits, opts)
+    if kind in ("fusion", "mixfusion"):
+        from pydrobert.torch.modules import (ExtractableShallowFusionLanguageModel,
+                                             MixableShallowFusionLanguageModel)
+        first = _hash_lm(V, qbits, opts, 0)
+        second = _hash_lm(V, qbits, {"double": opts.get("double"), "view": opts.get("view")}, 1)
+        cls = MixableShallowFusionLanguageModel if kind == "mixfusion" else ExtractableShallowFusionLanguageModel
+        lm = cls(first, second, float(opts.get("beta", 0.5)))
+        lm.calls = first.calls
+        return lm
+    if kind == "lookup":
+        from pydrobert.torch.modules import LookupLanguageModel
+
+        class RecLookup(LookupLanguageModel):
+            def calc_idx_log_probs(self, hist, prev, idx):
+                if int(idx) > DEPTH_CAP:
+                    raise RuntimeError("harness LM: depth cap exceeded (search does not terminate)")
+                self.calls.append((int(idx), hist.size(0), hist.size(1)))
+                return super().calc_idx_log_probs(hist, prev, idx)
+        sos = opts.get("sos", -1)
+        lm = RecLookup(V, sos, lookup_dicts(V, opts.get("order", 2), sos, opts.get("table_seed", 1)))
+        lm.calls = []
+        return lm
+    raise ValueError(kind)
+
+
+def initial_state(opts, ctx):
+    """What is handed to BeamSearch as `initial_state` (ctx: (N, 4) long tensor)."""
+    kind = opts.get("kind", "hash")
+    if opts.get("noctx"):
+        return None
+    if kind == "lookup":
+        return {}
+    if kind in ("fusion", "mixfusion"):
+        return {"first.ctx": ctx, "second.ctx": ctx}
+    return {"ctx": ctx}
 
 
 def make_ctx(seeds, force_depths, eos_tok):
@@ -143,20 +240,24 @@ def make_ctx(seeds, force_depths, eos_tok):
     return torch.tensor(rows, dtype=torch.long).reshape(len(rows), 4)
 
 
-def build_table(lm, ctx_row, qbits, depth, eos_tok):
-    """history -> quantised scores, by running the LM UNBATCHED (one row) along every history
-    of length <= depth (children of a history that ends in eos are not expanded)."""
+def build_table(lm, ctx_row, qbits, depth, eos_tok, opts=None, quant=True):
+    """history -> scores, by running the LM UNBATCHED (one row) along every history of length <= depth
+    (children of a history that ends in eos are not expanded). quant: the scores are quantised as the
+    hook does; otherwise they are the floats log_softmax returns (exact as python floats)."""
     import torch
     V = lm.vocab_size
     table = {}
-    prev0 = lm.update_input({"ctx": ctx_row.reshape(1, 4)}, torch.empty((0, 1), dtype=torch.long))
+    init = initial_state(opts or {}, ctx_row.reshape(1, 4))
+    prev0 = lm.update_input(dict() if init is None else init, torch.empty((0, 1), dtype=torch.long))
 
     def rec(hist, prev):
         L = len(hist)
         ht = torch.tensor(hist, dtype=torch.long).reshape(L, 1)
         logits, nxt = lm.calc_idx_log_probs(ht, prev, torch.tensor(L))
-        sc = quantise(logits.log_softmax(-1), qbits)[0]
-        table[tuple(hist)] = [float(x) for x in sc]
+        sc = logits.log_softmax(-1)
+        if quant:
+            sc = quantise(sc, qbits)
+        table[tuple(hist)] = [float(x) for x in sc[0]]
         if L < depth:
             for v in range(V):
                 if eos_tok is not None and v == eos_tok:
@@ -178,6 +279,11 @@ def make_search(lm, width, eos, finish_all, pad, qbits, via):
                               y_prev_lens.clone(), eos_mask.clone()))
         return log_probs_prev, q
 
+    if via == "nohook":
+        # the library's own update_log_probs_for_step: nothing is quantised, scores are plain floats
+        s = BeamSearch(lm, width, eos, finish_all, pad)
+        s.hook_log = None
+        return s
     if via == "subclass":
         class QBeam(BeamSearch):
             # `proxy` (= super(self.__class__, self).__call__) recurses forever in a subclass
